@@ -11,12 +11,15 @@ exon junctions, each other; records are written in GENE coordinates for every is
   excon    trypsin with trypsin_exception        (known finding D14 is classified by its signature)
   nola     rules having an alternative without look-ahead (the engine used to abort on them: fixed db08c8d)
   wide     pepsin (look-behind 2 + look-ahead 2; known finding D14b)
-  fusion   one fusion record (exonic breakpoints) + records on both partners: must_fusion_set (SpecFusion.v)
+  fusion   1-2 fusion records of one donor (exonic / intronic breakpoints, retained intron pieces with records inside /
+           abutting / straddling, all NF tag combinations) + records on both partners: must_fusion_set_g (SpecFusion.v)
+  fuscirc  a fusion and a circRNA on the same transcript
   flags    trypsin with --selenocysteine-termination and / or --w2f-reassignment (must_set_fl, SpecAlt.v)
 A missing obliged peptide that matches no signature is a VIOLATION with the input as replay.
 """
 import json, os, glob, collections
 from harness.lib import oracle as O, cvgen as CG, cvcheck as CK
+from harness.lib import cvgen_fus as CF
 from harness.lib import cvgen2 as CG2, cvcheck2 as CK2      # alternative-splicing / circRNA streams
 
 PROPERTY = 'C01'
@@ -24,8 +27,8 @@ ROOT = os.path.dirname(os.path.dirname(os.path.dirname(os.path.abspath(__file__)
 
 def sizes(ctx):
     if ctx.quick:
-        return dict(core=700, excon=260, nola=100, wide=50, flags=90, fusion=110, altsplice=150, circ=120)
-    return dict(core=17000, excon=6000, nola=1200, wide=800, flags=4000, fusion=3000, altsplice=4000, circ=3000)
+        return dict(core=700, excon=260, nola=100, wide=50, flags=90, fusion=110, fuscirc=25, altsplice=150, circ=120)
+    return dict(core=17000, excon=6000, nola=1200, wide=800, flags=4000, fusion=4000, fuscirc=600, altsplice=4000, circ=3000)
 
 def gen_cases(ctx):
     rng = ctx.rng
@@ -34,7 +37,8 @@ def gen_cases(ctx):
     cases = []
     la_other = [r for r in rc['la'] if r != 'trypsin']
     for i in range(n['core']):
-        c = CG.gen_case(rng, coding_p=0.75)
+        # 8 %: two SNVs on adjacent bases with further alleles / an indel starting on the first base (seeded C05-4)
+        c = CG.gen_adjpair_case(rng) if rng.random() < 0.08 else CG.gen_case(rng, coding_p=0.75)
         rule = 'trypsin' if rng.random() < 0.6 else la_other[i % len(la_other)]
         base = CG.gen_run(rng, rule=rule, exc_on=False)
         runs = [base]
@@ -74,9 +78,15 @@ def gen_cases(ctx):
         cases.append(c)
     # fusion transcripts: must_fusion_set (Model/SpecFusion.v) must be in the FASTA as well
     for i in range(n.get('fusion', 0)):
-        c = CG.gen_fusion_case(rng)
+        c = CF.gen_fusion_case2(rng)
         c['runs'] = [dict(CG.gen_run(rng, rule='trypsin', exc_on=False), fusion_must=True)]
         c['stream'] = 'fusion'
+        cases.append(c)
+    # a fusion and a circRNA on the same transcript (the callers share one record series per transcript)
+    for i in range(n.get('fuscirc', 0)):
+        c = CF.gen_fusion_circ_case(rng)
+        c['runs'] = [dict(CG.gen_run(rng, rule='trypsin', exc_on=False), fusion_must=True, circ_must=True)]
+        c['stream'] = 'fuscirc'
         cases.append(c)
     cases += altsplice_cases(ctx, n.get('altsplice', 0))
     cases += circ_cases(ctx, n.get('circ', 0))
@@ -101,6 +111,11 @@ def judge(evs, violations, stats, reps=None):
         by_case[ev.ci].append(ev)
         st = ev.case.get('stream', '?').split(':')[0]
         stats['runs:' + st] += 1
+        if ev.exc and CK.is_fusion_align_crash(ev):
+            stats['fusion_align_crash'] += 1
+            violations.append({'what': 'callVariant aborts while fitting the fusion graph into codons (IndexError in align_variants): nothing is reported',
+                               'replay_obj': CK.replay_obj(ev, 'crash'), 'no_input': False, 'finding': CK.F_FUSALIGN})
+            continue
         if ev.exc and CK.is_fusion_crash(ev):
             stats['fusion_crash'] += 1
             violations.append({'what': 'callVariant aborts while building the fusion graph (ValueError in expand_alignments): nothing is reported',
